@@ -11,7 +11,7 @@ use std::sync::atomic::{AtomicBool, AtomicU64, Ordering};
 use std::sync::{Arc, Barrier, mpsc};
 use std::time::{Duration, Instant};
 
-pub const RULE: &str = "generated real-thread schedules: one waiter (wait_for_credit or wait_for_reconnect, far-future deadline) against 1..3 signaller threads running generated op lists over {ack, send, cancel, advance, resume} with generated start order (parked-first: signals start >=1.5 ms after the waiter's start stamp; racing: barrier start) and inter-op spins; oracle is schedule-independent: if the final state satisfies the waiter's predicate the waiter must have returned within the watchdog, otherwise the harness cancels and the waiter must return Cancelled; result kinds limited to what the issued operations make possible; deadline cases must time out no earlier than the deadline; non-trivial = the waiter was parked (start stamp + 1 ms earlier than the first signal); distinct = case hash";
+pub const RULE: &str = "generated real-thread schedules: one waiter (wait_for_credit or wait_for_reconnect, far-future deadline) against 1..3 signaller threads running generated op lists over {ack, send, cancel, advance, resume} with generated start order (parked-first: signals start >=1.5 ms after the waiter's start stamp; racing: barrier start) and inter-op spins; oracle is schedule-independent: if the final state satisfies the waiter's predicate the waiter must have returned within the watchdog, otherwise the harness cancels and the waiter must return Cancelled; result kinds limited to what the issued operations make possible; deadline cases must time out no earlier than the deadline; (resume-frees-credit) a producer parked on a full, unacknowledged window returns with credit when the receiver resumes at any chunk boundary up to everything sent; (deadline-rearm) with another thread issuing non-satisfying wake-ups for 90% of the deadline the waiter still times out within 1.55x the deadline (confirmed twice); non-trivial = the waiter was parked (start stamp + 1 ms earlier than the first signal); distinct = case hash";
 
 #[derive(Debug, Clone, Copy, Serialize, Deserialize, Hash, PartialEq, Eq)]
 pub enum Waiter {
@@ -408,7 +408,131 @@ pub fn sched_deadline() -> BoxedStrategy<Sched> {
         .boxed()
 }
 
+// ------------------------------------------------ deadlines under a stream of wake-ups
+
+/// A waiter with a deadline, while another thread keeps issuing operations that wake
+/// the condition variable without satisfying the waiter (advancing acks that free too
+/// little credit). The waiter must still time out at its deadline: not earlier, and not
+/// much later (each wake-up must not re-arm the full timeout).
+#[derive(Debug, Clone, Serialize, Deserialize, Hash, PartialEq, Eq)]
+pub struct Rearm {
+    pub reconnect: bool,
+    pub timeout_ms: u16,
+    pub period_us: u16,
+}
+
+fn rearm_once(c: &Rearm) -> Result<Duration, Fail> {
+    let tc = Arc::new(TransferControl::with_replay_capacity(1000, 1 << 20));
+    // 1000 bytes in flight fill the window; a 500-byte chunk needs 500 acknowledged
+    tc.push_replay(0, 1000, false, vec![7u8; 1000]);
+    tc.record_sent(1000);
+    let timeout = Duration::from_millis(c.timeout_ms as u64);
+    let stop = Arc::new(AtomicBool::new(false));
+    let (tc2, stop2) = (tc.clone(), stop.clone());
+    let period = Duration::from_micros(c.period_us as u64);
+    let span = timeout.mul_f32(0.9);
+    let signaller = std::thread::spawn(move || {
+        let t0 = Instant::now();
+        let mut off = 0u64;
+        while t0.elapsed() < span && !stop2.load(Ordering::SeqCst) {
+            // an advancing ack (wakes waiters) that never frees enough credit
+            if off < 400 {
+                off += 1;
+                tc2.record_ack(0, off);
+            } else {
+                tc2.record_ack(1, 5); // another file: ignored, may still notify
+            }
+            std::thread::sleep(period);
+        }
+    });
+    let t0 = Instant::now();
+    let timed_out = if c.reconnect {
+        matches!(tc.wait_for_reconnect(timeout), ReconnectOutcome::Timeout)
+    } else {
+        matches!(tc.wait_for_credit(500, t0 + timeout), Err(CreditError::Timeout))
+    };
+    let elapsed = t0.elapsed();
+    stop.store(true, Ordering::SeqCst);
+    let _ = signaller.join();
+    ensure!(timed_out, "deadline-wrong-outcome", "the waiter did not report a timeout although nothing satisfied it");
+    ensure!(elapsed + Duration::from_millis(2) >= timeout, "timeout-too-early", "timed out after {elapsed:?}, deadline {timeout:?}");
+    Ok(elapsed)
+}
+
+pub fn check_rearm(c: &Rearm) -> CheckResult {
+    let timeout = Duration::from_millis(c.timeout_ms as u64);
+    let slack = timeout.mul_f32(0.55); // re-arming on every wake-up would add ~0.9 x timeout
+    let mut elapsed = rearm_once(c)?;
+    if elapsed > timeout + slack {
+        // lateness is a timing observation: confirm it once before reporting
+        elapsed = elapsed.min(rearm_once(c)?);
+    }
+    ensure!(
+        elapsed <= timeout + slack,
+        "deadline-rearmed-by-wakeups",
+        "{} with a {timeout:?} deadline returned after {elapsed:?} (twice) while another thread issued non-satisfying wake-ups for the first 90% of it",
+        if c.reconnect { "wait_for_reconnect" } else { "wait_for_credit" }
+    );
+    Ok(CaseInfo::new(true).class(if c.reconnect { "reconnect-waiter" } else { "credit-waiter" }))
+}
+
+// --------------------------------------------- a resume that confirms in-flight bytes
+
+/// A producer parked for credit on a full window (everything sent, nothing
+/// acknowledged); the receiver reconnects and resumes at the k-th chunk boundary,
+/// which confirms every byte up to there (up to and including everything sent). The
+/// resume frees that much of the window, so the parked producer returns with credit.
+#[derive(Debug, Clone, Serialize, Deserialize, Hash, PartialEq, Eq)]
+pub struct ResumeFrees {
+    pub chunks: u8,
+    pub chunk: u64,
+    pub k: u8,
+}
+
+pub fn check_resume_frees(c: &ResumeFrees) -> CheckResult {
+    let n = c.chunks.max(1) as u64;
+    let k = (c.k as u64).clamp(1, n);
+    let tc = Arc::new(TransferControl::with_replay_capacity(n * c.chunk, 1 << 30));
+    for i in 0..n {
+        tc.push_replay(i * c.chunk, c.chunk, false, vec![7u8; c.chunk as usize]);
+        tc.record_sent((i + 1) * c.chunk);
+    }
+    let parked = Arc::new(AtomicBool::new(false));
+    let (tc2, p2, len) = (tc.clone(), parked.clone(), c.chunk);
+    let waiter = std::thread::spawn(move || {
+        p2.store(true, Ordering::SeqCst);
+        let t0 = Instant::now();
+        (tc2.wait_for_credit(len, t0 + watchdog()), t0.elapsed())
+    });
+    while !parked.load(Ordering::SeqCst) {
+        std::thread::yield_now();
+    }
+    std::thread::sleep(Duration::from_millis(3));
+    let at = k * c.chunk;
+    let accepted = tc.request_resume(peer(7), 0, at);
+    ensure!(accepted == Ok(at), "resume-rejected-wrongly", "a resume at the retained boundary {at} (sent {}) was answered {accepted:?}", n * c.chunk);
+    let (res, elapsed) = waiter.join().map_err(|_| Fail::new("panic", "waiter panicked"))?;
+    ensure!(
+        res.is_ok(),
+        "resume-did-not-free-credit",
+        "window {w} full and unacknowledged; the receiver resumed at {at} (confirming {at} of {w} sent bytes), which leaves room for a {len}-byte chunk, but wait_for_credit returned {res:?} after {elapsed:?}",
+        w = n * c.chunk,
+        len = c.chunk
+    );
+    Ok(CaseInfo::new(true).class(if k == n { "resume-at-everything-sent" } else { "resume-inside-the-in-flight-run" }))
+}
+
 pub fn run(ctx: &Ctx, rep: &Report) {
+    let rf: Vec<ResumeFrees> = [(1u8, 8u64), (3, 8), (4, 100)]
+        .into_iter()
+        .flat_map(|(chunks, chunk)| (1..=chunks).map(move |k| ResumeFrees { chunks, chunk, k }))
+        .collect();
+    run_enum(ctx, rep, "resume-frees-credit", &rf, true, &check_resume_frees);
+    let rearm: Vec<Rearm> = [false, true]
+        .into_iter()
+        .flat_map(|reconnect| [(1200u16, 300u16), (1500, 5000), (2000, 40_000)].into_iter().map(move |(timeout_ms, period_us)| Rearm { reconnect, timeout_ms, period_us }))
+        .collect();
+    run_enum(ctx, rep, "deadline-rearm", &rearm, false, &check_rearm);
     run_prop(ctx, rep, "schedules", ctx.tier.pick(12_000, 240_000), &|| sched(), &check);
     run_prop(ctx, rep, "deadlines", ctx.tier.pick(320, 4_000), &|| sched_deadline(), &check);
 }
@@ -416,6 +540,8 @@ pub fn run(ctx: &Ctx, rep: &Report) {
 pub fn replay(sub: &str, case: &Value) -> Result<(), Fail> {
     match sub {
         "schedules" | "deadlines" => replay_case::<Sched>(case, &check),
+        "deadline-rearm" => replay_case::<Rearm>(case, &check_rearm),
+        "resume-frees-credit" => replay_case::<ResumeFrees>(case, &check_resume_frees),
         _ => Err(Fail::new("replay-unknown-sub", sub.to_string())),
     }
 }
